@@ -183,4 +183,112 @@ def valueToks : Opt → List Tok
   | .msg _ kids => (.lbrace :: msgToks kids) ++ [.rbrace]
   | .arr _ kids => (.lbrack :: arrToks kids) ++ [.rbrack]
 
+/-! ### the reader: a parser for the message-literal subset (over tokens)
+
+Written from the text-format grammar (`{ name: value … }`, `[ value, … ]`). Fields of a message
+carry their name; elements of a list do not. -/
+
+mutual
+/-- fields up to (not including) the first token that cannot start a field -/
+def pFields : Nat → List Tok → Option (List Opt × List Tok)
+  | 0, _ => none
+  | f + 1, toks =>
+    match toks with
+    | .ident k :: .colon :: .scalar v :: rest =>
+      (pFields f rest).map (fun p => (.scalar k v :: p.1, p.2))
+    | .ident k :: .colon :: .lbrace :: rest =>
+      (match pFields f rest with
+       | some (kids, .rbrace :: r2) => (pFields f r2).map (fun p => (.msg k kids :: p.1, p.2))
+       | _ => none)
+    | .ident k :: .colon :: .lbrack :: rest =>
+      (match pElems f rest with
+       | some (kids, .rbrack :: r2) => (pFields f r2).map (fun p => (.arr k kids :: p.1, p.2))
+       | _ => none)
+    | _ => some ([], toks)
+
+/-- list elements up to (not including) the closing bracket -/
+def pElems : Nat → List Tok → Option (List Opt × List Tok)
+  | 0, _ => none
+  | f + 1, toks =>
+    match toks with
+    | .scalar v :: .comma :: rest => (pElems f rest).map (fun p => (.scalar "" v :: p.1, p.2))
+    | .scalar v :: rest => some ([.scalar "" v], rest)
+    | .lbrace :: rest =>
+      (match pFields f rest with
+       | some (kids, .rbrace :: .comma :: r2) => (pElems f r2).map (fun p => (.msg "" kids :: p.1, p.2))
+       | some (kids, .rbrace :: r2) => some ([.msg "" kids], r2)
+       | _ => none)
+    | _ => some ([], toks)
+end
+
+/-- a whole option value -/
+def pValue (fuel : Nat) : List Tok → Option Opt
+  | [.scalar v] => some (.scalar "" v)
+  | .lbrace :: rest =>
+    (match pFields fuel rest with
+     | some (kids, [.rbrace]) => some (.msg "" kids)
+     | _ => none)
+  | .lbrack :: rest =>
+    (match pElems fuel rest with
+     | some (kids, [.rbrack]) => some (.arr "" kids)
+     | _ => none)
+  | _ => none
+
+/-! what the text can carry: list elements lose their (redundant) key, the root loses its name -/
+mutual
+def normKids : List Opt → List Opt
+  | [] => []
+  | .scalar k v :: r => .scalar k v :: normKids r
+  | .msg k ks :: r => .msg k (normKids ks) :: normKids r
+  | .arr k ks :: r => .arr k (normElems ks) :: normKids r
+def normElems : List Opt → List Opt
+  | [] => []
+  | .scalar _ v :: r => .scalar "" v :: normElems r
+  | .msg _ ks :: r => .msg "" (normKids ks) :: normElems r
+  | .arr _ _ :: r => normElems r
+end
+
+def norm : Opt → Opt
+  | .scalar _ v => .scalar "" v
+  | .msg _ ks => .msg "" (normKids ks)
+  | .arr _ ks => .arr "" (normElems ks)
+
+/-! the trees `WalkOptionField` produces: no list directly inside a list -/
+mutual
+def wfKids : List Opt → Bool
+  | [] => true
+  | .scalar _ _ :: r => wfKids r
+  | .msg _ ks :: r => wfKids ks && wfKids r
+  | .arr _ ks :: r => wfElems ks && wfKids r
+def wfElems : List Opt → Bool
+  | [] => true
+  | .scalar _ _ :: r => wfElems r
+  | .msg _ ks :: r => wfKids ks && wfElems r
+  | .arr _ _ :: _ => false
+end
+
+def wf : Opt → Bool
+  | .scalar _ _ => true
+  | .msg _ ks => wfKids ks
+  | .arr _ ks => wfElems ks
+
+/-! fuel that suffices -/
+mutual
+def szKids : List Opt → Nat
+  | [] => 1
+  | .scalar _ _ :: r => 1 + szKids r
+  | .msg _ ks :: r => 1 + szKids ks + szKids r
+  | .arr _ ks :: r => 1 + szElems ks + szKids r
+def szElems : List Opt → Nat
+  | [] => 1
+  | .scalar _ _ :: r => 1 + szElems r
+  | .msg _ ks :: r => 1 + szKids ks + szElems r
+  | .arr _ ks :: r => 1 + szElems ks + szElems r
+end
+
+def sz : Opt → Nat
+  | .scalar _ _ => 1
+  | .msg _ ks => szKids ks
+  | .arr _ ks => szElems ks
+
 end J5V.Print.OptionText
